@@ -39,17 +39,46 @@ Record cobs := {
 }.
 Record case := { c_cfg : list (N * N * N); c_cap : Z; c_conns : list conn; c_obs : list cobs }.
 
-(* target addresses: all denote the local scripted target *)
-Definition target_addr (akind port : N) : option saddr :=
+(* target addresses. 0-3: the local scripted target on loopback; 4-15: the table shared with the
+   UDP scenario (netsetup.go targetKinds): local addresses in public and non-public ranges;
+   30-32: names answered by the harness' DNS server (fakedns.go), carrying the seed *)
+Definition v4 (a b c d : N) : N := a * 2^24 + b * 2^16 + c * 2^8 + d.
+Definition ip_203 := v4 203 0 113 77.
+Definition ip_10 := v4 10 99 0 1.
+Definition pub6 : N := 8193 * 2^112 + 3512 * 2^96 + 119 * 2^80 + 1.      (* 2001:db8:77::1 *)
+Definition ula6 : N := 64768 * 2^112 + 153 * 2^96 + 1.                   (* fd00:99::1 *)
+Fixpoint seed_letters (n : nat) (x : N) : bytes :=
+  match n with O => [] | S m => (97 + x mod 26) :: seed_letters m (x / 26) end.
+Definition dns_name (akind seed : N) : bytes :=
+  (match akind with
+   | 30 => [109;105;120;101;100]       (* "mixed" *)
+   | 31 => [116;119;111]               (* "two" *)
+   | _ => [102;108;105;112]            (* "flip" *)
+   end) ++ [45] ++ seed_letters 7 seed ++ [46;118;101;114;105;102;46;116;101;115;116].   (* "-" ... ".verif.test" *)
+Definition target_host (akind seed : N) : option host :=
   match akind with
-  | 0 => Some {| sa_host := HostV4 (127 * 2^24 + 1); sa_port := port |}
-  | 1 => Some {| sa_host := HostV6 1; sa_port := port |}
-  | 2 => Some {| sa_host := HostDomain [49;50;55;46;48;46;48;46;49]; sa_port := port |}       (* "127.0.0.1" *)
-  | 3 => Some {| sa_host := HostDomain [108;111;99;97;108;104;111;115;116]; sa_port := port |} (* "localhost" *)
+  | 0 => Some (HostV4 (v4 127 0 0 1))
+  | 1 => Some (HostV6 1)
+  | 2 => Some (HostDomain [49;50;55;46;48;46;48;46;49])                    (* "127.0.0.1" *)
+  | 3 => Some (HostDomain [108;111;99;97;108;104;111;115;116])            (* "localhost" *)
+  | 4 => Some (HostV4 ip_203)
+  | 5 => Some (HostV4 ip_10)
+  | 6 => Some (HostV4 (v4 100 64 0 9))
+  | 7 => Some (HostV4 (v4 192 168 99 1))
+  | 8 => Some (HostV4 (v4 172 16 99 1))
+  | 10 => Some (HostV4 (v4 169 254 9 9))
+  | 11 => Some (HostV6 pub6)
+  | 12 => Some (HostV6 ula6)
+  | 13 => Some (HostV6 (65535 * 2^32 + ip_10))                               (* ::ffff:10.99.0.1 *)
+  | 14 => Some (HostV6 (65535 * 2^32 + ip_203))                              (* ::ffff:203.0.113.77 *)
+  | 15 => Some (HostDomain [50;48;51;46;48;46;49;49;51;46;55;55])          (* "203.0.113.77" *)
+  | 30 | 31 | 32 => Some (HostDomain (dns_name akind seed))
   | _ => None
   end.
-Definition addr_bytes (akind port : N) : bytes :=
-  match target_addr akind port with
+Definition target_addr (akind port seed : N) : option saddr :=
+  option_map (fun h => {| sa_host := h; sa_port := port |}) (target_host akind seed).
+Definition addr_bytes (akind port seed : N) : bytes :=
+  match target_addr akind port seed with
   | Some a => encode_addr a
   | None =>
       match akind with
@@ -66,6 +95,10 @@ Definition addr_bytes (akind port : N) : bytes :=
 Definition resolved_of (k : ckind) : list ip :=
   match k with
   | CHonest _ _ _ 22 _ _ _ _ => []
+  | CHonest _ _ _ 15 _ _ _ _ => [V4 ip_203]
+  | CHonest _ _ _ 30 _ _ _ _ => [V16 1; V4 ip_203]          (* AAAA ::1 and A 203.0.113.77, in either order *)
+  | CHonest _ _ _ 31 _ _ _ _ => [V4 ip_10; V4 ip_203]
+  | CHonest _ _ _ 32 _ _ _ _ => [V4 ip_203]                 (* what the FIRST look-up answers *)
   | _ => [V4 (127 * 2^24 + 1)]
   end.
 
@@ -76,9 +109,9 @@ Fixpoint chop (fuel : nat) (bs : bytes) : list bytes :=
   | S f => if (length bs <=? N.to_nat size_mask)%nat then [bs]
            else firstn (N.to_nat size_mask) bs :: chop f (skipn (N.to_nat size_mask) bs)
   end.
-Definition plain_chunks (akind port : N) (chunks : list (N * N)) (coalesce : bool) : list bytes :=
+Definition plain_chunks (akind port seed : N) (chunks : list (N * N)) (coalesce : bool) : list bytes :=
   let ps := map (fun ls => gb (fst ls) (snd ls)) chunks in
-  let ab := addr_bytes akind port in
+  let ab := addr_bytes akind port seed in
   let writes := match ps with
                 | p1 :: r => if coalesce then (ab ++ p1) :: r else ab :: p1 :: r
                 | [] => [ab]
@@ -101,7 +134,7 @@ Definition wire_of (e : env) (i : N) (k : ckind) : env * list wbyte :=
   | CHonest c s seed akind port chunks coalesce corrupt =>
       let key := mk_key c s in
       let salt := raws (gb (N.of_nat (salt_size (k_cipher key))) seed) in
-      let pcs := plain_chunks akind port chunks coalesce in
+      let pcs := plain_chunks akind port seed chunks coalesce in
       let '(e', w) := encode_stream e (i * 100000) key salt pcs in
       if corrupt =? 0 then (e', w)
       else (e', set_nth_w (chunk_offset (tag_size (k_cipher key)) (N.odd corrupt) (N.to_nat (corrupt / 2)) pcs (salt_size (k_cipher key))) (raw 255) w)
